@@ -14,7 +14,7 @@ COQ_IMPORTS = ("From Synnax Require Import Common.Base Cesium.Store Cesium.Index
                "Cesium.UnaryIter Cesium.UnaryWrite Cesium.Read Monitors.Mon_C10.")
 COQ_EXTRA = "Local Open Scope Z_scope."
 CASE_TYPE = "case_t"
-COUNTS = {"quick": 500, "thorough": 20000}
+COUNTS = {"quick": 900, "thorough": 20000}
 SHARD = 70
 OPS_KEY = "ops"
 RULE = ("layouts written through the real cesium writer: 1-3 index channels x 0-3 data channels (int64/uint8/float32/"
@@ -31,7 +31,10 @@ TRUSTED = ["hook cesium/export_verif_c10.go (VerifOpenUnaryIterator = uDB.OpenIt
 ASSUMES = ["time stamps and spans within [0, 2^63-1]; int64 wrap-around modelled only at ref+1 / End-1 of the domain iterator bounds",
            "one writer session open at a time (file acquisition is then deterministic)",
            "variable-length offset cache is transparent (rebuilt tables equal published ones)"]
-PARTIAL = None
+PARTIAL = ("C10_step_exact_partial / C10_full_traversal_partial hold for layouts in which every data domain lies inside ONE index "
+           "domain (decidable guard layout_ok); data domains spanning several contiguous index domains (index file rolled over "
+           "inside them) and the backward traversal are covered by the correspondence + monitor only. Known finding F24 "
+           "(C10-auto-prev-eof): backwardStamp makes Prev(AutoSpan) report EOF on a domain boundary; not fixed.")
 
 CMDS = {"seek_first": "SeekFirst", "seek_last": "SeekLast", "next_auto": "NextAuto", "prev_auto": "PrevAuto"}
 
@@ -310,8 +313,25 @@ def consts(repo):
             "Definition go_auto_span : Z := %d.\nDefinition go_default_chunk : Z := %d.\n" % (int(m.group(1)), chunk))
 
 
-READY = False
+READY = True
 TECHNIQUE = "Coq proof (binary-search specs, invariants over command lists) + model/impl correspondence by vm_compute"
 DESIGN_REF = "DESIGN.md §8 C10"
-LEVEL_TEXT = "TODO"
-LEVEL_NOTE = "TODO"
+LEVEL_TEXT = ("Machine-checked Coq theorems over an executable Gallina copy of index.Domain.search/Distance/Stamp, the domain index "
+              "search and domain iterator, and unary.Iterator (SetBounds/Seek*/Next/Prev explicit and AutoSpan, accumulate/sliceDomain/"
+              "pickSampleOffset/approximateStart/End/insert/satisfied): search_spec (binary search = Exactly i / Between (k-1) k); "
+              "Distance inside an index domain yields the exact sample count under every exact/inexact flag combination; for EVERY layout "
+              "satisfying the decidable guard layout_ok, every bounds and EVERY command sequence each non-erroring command returns exactly "
+              "the stored samples of its view (C10_step_exact_partial, by a structural theorem: the frame of a step is the in-order slices "
+              "of all domains overlapping the view, wherever earlier commands left the domain iterator); for ALL layouts step views lie in "
+              "the bounds and consecutive same-direction steps are adjacent (C10_views_adjacent_and_bounded); a forward traversal visits "
+              "every in-bounds sample exactly once (C10_full_traversal_partial). The model is tied to /repo on every run by writing "
+              "generated layouts through the real cesium writer, driving the real unary.Iterator and comparing ok/Valid/View/Error/series "
+              "after every command inside Coq; a decidable monitor states the property on the implementation's observations.")
+LEVEL_NOTE = ("Trusted: Coq kernel/vm_compute; hand-written model (tied by correspondence, not translation); harness + hook "
+              "VerifOpenUnaryIterator; sample<->bytes codec of the harness; generator. Theorems closed under the global context. "
+              "partial: exactness/traversal theorems carry the guard layout_ok (data domain within one index domain) and the forward "
+              "direction; the rest is observed by the correspondence. Finding F1 (stepping relied on the stale domain-iterator position; "
+              "AutoSpan chunk loops returned samples outside the view, panicked, or recursed without bound) was found by this check and "
+              "repaired by fix commit e87d2c5 (C10_legacy_steps_refuted keeps witnesses); F24 (backwardStamp EOF) is a known finding "
+              "exercised by a separate stream so that it never masks other rejections. Errors reported by a step exempt it from the "
+              "exactness clause (the iterator documents itself as stopped until the next seek).")
